@@ -14,7 +14,7 @@ from prosemirror.model.to_dom import DOMSerializer
 from prosemirror.transform import Mapping, ReplaceStep, StepMap, Transform
 
 PROPERTY = "C10"
-BOUNDS = ("catalogue documents of the list/strict/iso schemas; 21 Transform operation kinds and 26 model/step/mapping/"
+BOUNDS = ("catalogue documents of the list/strict/iso schemas; 21 Transform operation kinds and 27 model/step/mapping/"
           "serialisation operations, each with symbolic integer arguments; live set = template, slice/node/mark "
           "catalogues, one step with its map, Transform prefix, singletons")
 ASSUMPTIONS = ["sequences of operations follow by induction (no operation keeps hidden state besides the two accumulators); not discharged by the solver",
